@@ -44,7 +44,7 @@ OkTrPerm == {"ok", "tr", "perm"}
 All4 == {"ok", "tr", "perm", "wrongtype"}
 OkOnly == {"ok"}
 NoTol == {}
-KnownRecovery == {"C10_DeferredRan", "C10_Consistent", "C10_Times"}
+KnownRecovery == {}
 \* with outcomes that change across the restart a re-run plan pre-check can fail and leave the started block Running
-KnownRecoveryAny == KnownRecovery \cup {"C10_NothingRunning"}
+KnownRecoveryAny == {}
 =============================================================================
